@@ -1,7 +1,7 @@
 use crate::sync::{LockResult, PoisonError, TryLockError, TryLockResult};
 use crate::sync::{ResourceSignature, ResourceType};
 use shuttle_engine::current;
-use shuttle_engine::future::batch_semaphore::{BatchSemaphore, Fairness};
+use shuttle_engine::future::batch_semaphore::{BatchSemaphore, Fairness, TryAcquireError};
 use shuttle_engine::runtime::task::TaskId;
 use shuttle_engine::runtime::thread;
 use std::cell::RefCell;
@@ -109,7 +109,18 @@ impl<T: ?Sized> Mutex<T> {
         // `try_acquire` is a yield point. We need to let other threads in here so they
         // (a) may fail a `try_lock` (in case we acquired), or
         // (b) may release the lock (in case we failed to acquire) so we can succeed in a subsequent `try_lock`.
-        self.semaphore.try_acquire(1).map_err(|_| TryLockError::WouldBlock)?;
+        match self.semaphore.try_acquire(1) {
+            Ok(()) => {}
+            Err(TryAcquireError::NoPermits) => return Err(TryLockError::WouldBlock),
+            // The semaphore is closed once a guard has been dropped by a panicking holder (that is how
+            // poisoning is modelled). As in `lock`, the holder bookkeeping takes over from there: a
+            // poisoned mutex that nobody holds can still be acquired, and reports the poison.
+            Err(TryAcquireError::Closed) => {
+                if self.state.borrow().holder.is_some() {
+                    return Err(TryLockError::WouldBlock);
+                }
+            }
+        }
 
         state = self.state.borrow_mut();
         state.holder = Some(me);
